@@ -1,5 +1,36 @@
 """C04 worker: edit histories on BQM (float64 / float32 / object dtype, base object or .spin/.binary view
-handle) and QM; after every call the full state and all read paths are dumped and compared with the Coq model."""
+handle) and QM; after every call the full state and all read paths are dumped and compared with the Coq model.
+
+Coverage map (clause of the property -> stream that reaches it; "via" = alternative public spelling of the same edit):
+  adding / setting linear biases ........ add_variable, add_linear, set_linear (via linear[v] = b, linear[v] += b), add_linear_from
+                                          (list / tuple / generator / Mapping argument, alias add_variables_from), add_linear_from_array
+  adding / setting quadratic biases ..... add_quadratic (alias add_interaction), set_quadratic (via quadratic[u, v] = b, adj[u][v] = b,
+                                          adj[v][u] = b), add_quadratic_from (list / tuple / generator / Mapping, alias
+                                          add_interactions_from), add_quadratic_from_dense
+  removing .............................. remove_variable (named, pop, via del linear[v] with its ValueError -> KeyError translation),
+                                          remove_variables_from, remove_interaction (via del quadratic[u, v]), remove_interactions_from
+  contracting, flipping, fixing ......... contract_variables, flip_variable, fix_variable (via fix_variables(dict / pairs))
+  relabelling ........................... relabel_variables (partial, swap, cycle, conflicting; inplace or copy), relabel_variables_as_integers
+  scaling ............................... scale (plain; ignored_variables / ignored_interactions / ignore_offset in six iterable forms;
+                                          via model *= k, model /= k)
+  updating from another model ........... update (operand of either vartype and any dtype; QM operand for QM; via model += other)
+  offset ................................ offset = b (via offset += b spelled as model += b, model -= b, deprecated add_offset(b))
+  bounds, vartypes (QM) ................. add_variable(vartype, bounds), add_linear(default_vartype=, bounds), add_linear_from(defaults),
+                                          add_variables_from, set_lower_bound, set_upper_bound, change_vartype(v), BQM change_vartype
+                                          (inplace or copy)
+  size .................................. resize (grow, shrink, negative), clear
+  issued directly or through a view ..... every BQM call on the base, a fresh .spin/.binary handle or a handle captured earlier (stale)
+  three storage back-ends ............... each BQM history in lock-step on float64 / float32 / object
+  read paths ............................ observe(): linear, quadratic, adj, get_*, iter_*, degree, num_interactions, shape, is_linear,
+                                          to_numpy_vectors with every option combination (base and both handles)
+  a raising call changes nothing ........ ~15 % of the calls raise; dump before/after compared in Coq; on a QM the invariant of
+                                          C04_qm_failed_op_is_noop (nrib: no REAL end in any interaction) is evaluated on every state
+  operands of update .................... BQM of either vartype as float64 / float32 / object storage or handed over as its .spin /
+                                          .binary view (QuadraticModel.update then takes its pure-Python path), QM operand for a QM
+  QM.add_variables_from_model ........... per variable (variables=[v], any operand: QM with INTEGER / REAL bounds, BQM) or a whole BQM
+Not reached (no Coq op for them yet): normalize, add_linear_equality/inequality_constraint,
+fix_variables with more than one entry, energies-only paths.
+"""
 import copy
 import warnings
 from fractions import Fraction
@@ -20,6 +51,13 @@ INTS = list(range(0, 9))
 BUCKET = {"ValueError": "BValue", "TypeError": "BType", "KeyError": "BKey", "IndexError": "BIndex"}
 F32_BITS, F64_BITS = 17, 44
 VIEW_FORBIDDEN = {"resize", "lin_array", "dense", "change_vartype", "capture"}
+# other public spellings of the same edit (step key "via"): writes through the linear / quadratic / adj mapping views
+# (dimod/views/quadratic.py: __setitem__, __delitem__ with its ValueError -> KeyError translation), Mapping arguments of
+# the *_from loops, aliases, in-place operators, the plural fix_variables
+VIA = {"set_linear": ["view"], "set_quadratic": ["view", "adj", "adj_rev"], "remove_variable": ["view"],
+       "remove_interaction": ["view"], "add_linear_from": ["dict", "alias"], "add_quadratic_from": ["dict", "alias"],
+       "add_quadratic": ["alias"], "scale": ["imul", "itruediv"], "update": ["iadd"], "set_offset": ["iadd", "isub", "add_offset"],
+       "fix": ["plural_dict", "plural_pairs"], "add_linear": ["linear_iadd"]}
 
 
 def dec_label(j):
@@ -68,6 +106,25 @@ def small_desc(rng, labels, kinds, single):
             u, v = (ls[i], ls[j]) if rng.random() < 0.5 else (ls[j], ls[i])
             quad.append([enc_label(u), enc_label(v), dy(rng) if rng.random() > 0.12 else "0"])
     return {"vars": vars_, "lin": lin, "quad": quad, "off": dy(rng) if rng.random() < 0.7 else "0"}
+
+
+def force_label(o, lab_json, vt):
+    """make sure the operand description has a variable with this label (renaming its first variable, or adding one)"""
+    if any(v[0] == lab_json for v in o["vars"]):
+        return
+    if not o["vars"]:
+        o["vars"].append([lab_json, vt, -1 if vt == 'SPIN' else 0, 1])
+        o["lin"].append([lab_json, "1"])
+        return
+    oldl = o["vars"][0][0]
+    o["vars"][0][0] = lab_json
+    for t in o["lin"]:
+        if t[0] == oldl:
+            t[0] = lab_json
+    for t in o["quad"]:
+        for k in (0, 1):
+            if t[k] == oldl:
+                t[k] = lab_json
 
 
 def gen_case(rng, tier):
@@ -148,7 +205,7 @@ def gen_case(rng, tier):
                ("flip", 5), ("relabel", 7), ("relabel_ints", 2), ("scale", 4), ("update", 4), ("set_offset", 3),
                ("resize", 2), ("clear", 1), ("change_vartype", 5), ("fix", 3), ("capture", 4)]
     QM_OPS = [("q_add_variable", 8), ("add_linear", 6), ("q_add_linear_dflt", 4), ("q_add_linear_from_dflt", 4), ("set_linear", 4), ("add_quadratic", 10),
-              ("set_quadratic", 6), ("add_linear_from", 2), ("add_quadratic_from", 3), ("q_add_variables_from", 2),
+              ("set_quadratic", 6), ("add_linear_from", 2), ("add_quadratic_from", 3), ("q_add_variables_from", 2), ("q_add_vars_from_model", 6),
               ("remove_variable", 5), ("remove_interaction", 5), ("flip", 4), ("relabel", 6), ("relabel_ints", 2),
               ("scale", 3), ("update", 5), ("set_offset", 2), ("clear", 1), ("q_change_vartype", 5), ("fix", 3),
               ("q_set_lb", 3), ("q_set_ub", 3)]
@@ -255,6 +312,27 @@ def gen_case(rng, tier):
                     o = small_desc(rng, A, [rng.choice(['BINARY', 'SPIN'])], True)
                     o["vartype"] = o["vars"][0][1] if o["vars"] else 'BINARY'
                     o["dtype"] = rng.choice(["f64", "f32"])
+            if kind == "qm" and o.get("dtype") != "qm" and rng.random() < 0.5:
+                # share a SPIN / BINARY variable of the initial QM, with the operand showing that variable's vartype
+                sb = [v for v in init["vars"] if v[1] in ('SPIN', 'BINARY')]
+                if sb:
+                    tgt = rng.choice(sb)
+                    o["vartype"] = tgt[1]
+                    for vv in o["vars"]:
+                        vv[1] = tgt[1]; vv[2] = -1 if tgt[1] == 'SPIN' else 0; vv[3] = 1
+                    force_label(o, tgt[0], tgt[1])
+            # the operand itself in other forms: object-dtype storage, or handed over as its .spin / .binary view
+            # (QuadraticModel.update then takes its pure-Python path; BQM.update reads through the view)
+            if o.get("dtype") != "qm":
+                if kind == "qm" and rng.random() < 0.3:
+                    o["dtype"] = "obj"
+                r2 = rng.random()
+                if r2 < 0.2:
+                    # a view that shows the vartype the description names: the storage gets the other one
+                    o["as_view"] = o["vartype"].lower()
+                    o["store_other"] = True
+                elif r2 < 0.35:
+                    o["as_view"] = rng.choice(["spin", "binary"])
             op = [name, o]
             if kind == "bqm":
                 for v in o["vars"]:
@@ -300,6 +378,32 @@ def gen_case(rng, tier):
             op = [name, items, vt, lb, ub]
         elif name == "q_add_variables_from":
             op = [name, rng.choice(['BINARY', 'SPIN', 'INTEGER']), [lab(0.3) for _ in range(rng.randint(0, 3))]]
+        elif name == "q_add_vars_from_model":
+            # add_variables_from_model(other, variables=...): per variable (any operand) or the whole BQM operand at once
+            if rng.random() < 0.6:
+                o = small_desc(rng, A, ['BINARY', 'SPIN', 'INTEGER', 'INTEGER', 'REAL', 'REAL'], False)
+                o["dtype"] = "qm"
+            else:
+                o = small_desc(rng, A, [rng.choice(['BINARY', 'SPIN'])], True)
+                o["vartype"] = o["vars"][0][1] if o["vars"] else 'BINARY'
+                o["dtype"] = rng.choice(["f64", "f32", "obj"])
+            if not o["vars"]:
+                continue
+            whole = o["dtype"] != "qm" and rng.random() < 0.5
+            cand = o["vars"]
+            if rng.random() < 0.7:
+                # prefer variables with bounds (INTEGER / REAL) and labels the model probably does not hold yet
+                curk = set(map(lkey, cur))
+                for flt in (lambda vv: vv[1] in ('INTEGER', 'REAL') and lkey(dec_label(vv[0])) not in curk,
+                            lambda vv: vv[1] in ('INTEGER', 'REAL')):
+                    c2 = [vv for vv in o["vars"] if flt(vv)]
+                    if c2:
+                        cand = c2
+                        break
+            pick = None if whole else rng.choice(cand)[0]
+            for vv in (o["vars"] if whole else [[pick]]):
+                note(vv[0])
+            op = [name, o, pick]
         elif name == "q_change_vartype":
             op = [name, rng.choice(['BINARY', 'SPIN', 'INTEGER', 'REAL']), lab(0.9)]
         elif name in ("q_set_lb", "q_set_ub"):
@@ -307,12 +411,14 @@ def gen_case(rng, tier):
         if op is None:
             continue
         st = {"h": h, "op": op}
+        if name in VIA and rng.random() < 0.4:
+            st["via"] = rng.choice(VIA[name])
         if name == "scale" and op[2] is not None:
             # every documented argument form: any iterable, including one-shot iterators
             st["form"] = [rng.choice(["list", "tuple", "set", "frozenset", "iter", "dictkeys"]),
                           rng.choice(["list", "tuple", "set", "frozenset", "iter", "dictkeys"])]
         elif name in ("add_linear_from", "add_quadratic_from", "remove_variables_from", "remove_interactions_from",
-                      "q_add_variables_from", "q_add_linear_from_dflt"):
+                      "q_add_variables_from", "q_add_linear_from_dflt", "q_add_vars_from_model"):
             st["form"] = [rng.choice(["list", "list", "tuple", "iter"])]
         steps.append(st)
     return {"kind": kind, "init": init, "steps": steps, "avoid_known": True}
@@ -549,6 +655,16 @@ def coq_state(desc, T, kind):
     return f"(mkSt {k} {vs} (mkPoly {cq(F(desc['off']))} {lin} {quad}))"
 
 
+def coq_state_of_bqm(b, T):
+    """Coq state of a BQM object (base or view) exactly as it shows itself: variables in order, its vartype, biases"""
+    vt = b.vartype.name
+    lbq = cq(Fraction(-1 if vt == 'SPIN' else 0))
+    vs = clist([f"(mkV {cnat(T.idx(v))} {vt} {lbq} {cq(Fraction(1))})" for v in b.variables])
+    lin = clist([cpair(cnat(T.idx(v)), cq(F(x))) for v, x in b.linear.items()])
+    quad = clist([f"({cnat(T.idx(u))}, {cnat(T.idx(v))}, {cq(F(x))})" for (u, v), x in b.quadratic.items()])
+    return f"(mkSt (Some {vt}) {vs} (mkPoly {cq(F(b.offset))} {lin} {quad}))"
+
+
 def fl(x):
     return float(F(x))
 
@@ -599,7 +715,7 @@ def as_form(items, form):
     return items
 
 
-def run_op(t, hname, op, T, avoid, form=()):
+def run_op(t, hname, op, T, avoid, form=(), via=None):
     """execute one op on target t; returns (coq op term, coq handle term, exception or None)"""
     name = op[0]
     m = t.m
@@ -617,21 +733,53 @@ def run_op(t, hname, op, T, avoid, form=()):
     N = lambda j: cnat(T.idx(dec_label(j)))
     exc = None
     coq = None
+    view_keyerror = False          # the mapping views turn the method's ValueError into KeyError
     try:
         if name in ("add_variable", "add_linear", "set_linear"):
             con = {"add_variable": "OAddVariable", "add_linear": "OAddLinear", "set_linear": "OSetLinear"}[name]
             coq = f"({con} {N(op[1])} {cq(F(op[2]))})"
-            getattr(hobj, name)(L(op[1]), fl(op[2]))
+            if name == "set_linear" and via == "view":
+                hobj.linear[L(op[1])] = fl(op[2])
+            elif name == "add_linear" and via == "linear_iadd" and lkey(L(op[1])) in set(map(lkey, m.variables)):
+                # linear[v] += b on an existing variable: getter then setter
+                cur = F(hobj.linear[L(op[1])])
+                coq = f"(OSetLinear {N(op[1])} {cq(cur + F(op[2]))})"
+                hobj.linear[L(op[1])] += fl(op[2])
+            else:
+                getattr(hobj, name)(L(op[1]), fl(op[2]))
         elif name in ("add_quadratic", "set_quadratic"):
             con = "OAddQuadratic" if name == "add_quadratic" else "OSetQuadratic"
             coq = f"({con} {N(op[1])} {N(op[2])} {cq(F(op[3]))})"
-            getattr(hobj, name)(L(op[1]), L(op[2]), fl(op[3]))
+            present = set(map(lkey, m.variables))
+            if name == "set_quadratic" and via == "view":
+                hobj.quadratic[L(op[1]), L(op[2])] = fl(op[3])
+            elif name == "set_quadratic" and via == "adj" and lkey(L(op[1])) in present:
+                hobj.adj[L(op[1])][L(op[2])] = fl(op[3])          # Neighborhood.__setitem__
+            elif name == "set_quadratic" and via == "adj_rev" and lkey(L(op[2])) in present:
+                coq = f"({con} {N(op[2])} {N(op[1])} {cq(F(op[3]))})"
+                hobj.adj[L(op[2])][L(op[1])] = fl(op[3])
+            elif name == "add_quadratic" and via == "alias" and not is_qm(m):
+                hobj.add_interaction(L(op[1]), L(op[2]), fl(op[3]))
+            else:
+                getattr(hobj, name)(L(op[1]), L(op[2]), fl(op[3]))
         elif name == "add_linear_from":
             coq = f"(OAddLinearFrom {clist([cpair(N(v), cq(F(b))) for v, b in op[1]])})"
-            hobj.add_linear_from(as_form([(L(v), fl(b)) for v, b in op[1]], f0))
+            items = [(L(v), fl(b)) for v, b in op[1]]
+            if via == "dict" and len(set(lkey(v) for v, _ in items)) == len(items):
+                hobj.add_linear_from(dict(items))
+            elif via == "alias" and not is_qm(m):
+                hobj.add_variables_from(as_form(items, f0))
+            else:
+                hobj.add_linear_from(as_form(items, f0))
         elif name == "add_quadratic_from":
             coq = f"(OAddQuadraticFrom {clist([f'({N(u)}, {N(v)}, {cq(F(b))})' for u, v, b in op[1]])})"
-            hobj.add_quadratic_from(as_form([(L(u), L(v), fl(b)) for u, v, b in op[1]], f0))
+            items = [(L(u), L(v), fl(b)) for u, v, b in op[1]]
+            if via == "dict" and len(set((lkey(u), lkey(v)) for u, v, _ in items)) == len(items):
+                hobj.add_quadratic_from({(u, v): b for u, v, b in items})
+            elif via == "alias" and not is_qm(m):
+                hobj.add_interactions_from(as_form(items, f0))
+            else:
+                hobj.add_quadratic_from(as_form(items, f0))
         elif name == "lin_array":
             coq = f"(OAddLinearFrom {clist([cpair(cnat(T.idx(i)), cq(F(b))) for i, b in enumerate(op[1])])})"
             m.add_linear_from_array(np.array([fl(b) for b in op[1]], dtype=np.float64))
@@ -654,6 +802,9 @@ def run_op(t, hname, op, T, avoid, form=()):
             coq = f"(ORemoveVariable {'None' if op[1] is None else '(Some ' + N(op[1]) + ')'})"
             if op[1] is None:
                 hobj.remove_variable()
+            elif via == "view":
+                view_keyerror = True
+                del hobj.linear[L(op[1])]
             else:
                 hobj.remove_variable(L(op[1]))
         elif name == "remove_variables_from":
@@ -661,7 +812,11 @@ def run_op(t, hname, op, T, avoid, form=()):
             hobj.remove_variables_from(as_form([L(v) for v in op[1]], f0))
         elif name == "remove_interaction":
             coq = f"(ORemoveInteraction {N(op[1])} {N(op[2])})"
-            hobj.remove_interaction(L(op[1]), L(op[2]))
+            if via == "view":
+                view_keyerror = True
+                del hobj.quadratic[L(op[1]), L(op[2])]
+            else:
+                hobj.remove_interaction(L(op[1]), L(op[2]))
         elif name == "remove_interactions_from":
             coq = f"(ORemoveInteractionsFrom {clist([cpair(N(u), N(v)) for u, v in op[1]])})"
             hobj.remove_interactions_from(as_form([(L(u), L(v)) for u, v in op[1]], f0))
@@ -713,7 +868,14 @@ def run_op(t, hname, op, T, avoid, form=()):
             k = F(op[1])
             if op[2] is None:
                 coq = f"(OScale {cq(k)} [] [] false)"
-                hobj.scale(float(k))
+                if via == "imul":
+                    if hobj.__imul__(float(k)) is not hobj:
+                        raise AssertionError("__imul__ did not return the model itself")
+                elif via == "itruediv" and k != 0 and bits(1 / k) <= 1:
+                    if hobj.__itruediv__(float(1 / k)) is not hobj:
+                        raise AssertionError("__itruediv__ did not return the model itself")
+                else:
+                    hobj.scale(float(k))
             else:
                 coq = (f"(OScale {cq(k)} {clist([N(v) for v in op[2]])} "
                        f"{clist([cpair(N(u), N(v)) for u, v in op[3]])} {cbool(op[4])})")
@@ -724,11 +886,40 @@ def run_op(t, hname, op, T, avoid, form=()):
         elif name == "update":
             o = op[1]
             okind = "qm" if o.get("dtype") == "qm" else "bqm"
-            coq = f"(OUpdate {coq_state(o, T, okind)})"
-            hobj.update(build(o, o.get("dtype", "f64")))
+            if o.get("store_other") and o.get("dtype") != "qm":
+                # described in the view's vartype: stored in the other one (exact for the generated dyadic biases)
+                tmp = build(o, o.get("dtype", "f64"))
+                other = tmp.change_vartype('BINARY' if tmp.vartype is Vartype.SPIN else 'SPIN', inplace=False)
+            else:
+                other = build(o, o.get("dtype", "f64"))
+            if o.get("as_view") and not is_qm(other):
+                other = getattr(other, o["as_view"])
+                coq = f"(OUpdate {coq_state_of_bqm(other, T)})"       # the operand as the view shows it
+            else:
+                coq = f"(OUpdate {coq_state(o, T, okind)})"
+            if via == "iadd" and ((is_qm(m) and is_qm(other)) or (not is_qm(m) and not is_qm(other) and
+                                                                  (other.num_variables == 0 or other.vartype is hobj.vartype))):
+                if hobj.__iadd__(other) is not hobj:
+                    raise AssertionError("__iadd__ did not return the model itself")
+            else:
+                hobj.update(other)
         elif name == "set_offset":
-            coq = f"(OSetOffset {cq(F(op[1]))})"
-            hobj.offset = fl(op[1])
+            if via in ("iadd", "isub", "add_offset"):
+                # offset += b / model += b / model -= b / deprecated add_offset(b): getter then setter on the same handle
+                cur = F(hobj.offset)
+                b = F(op[1])
+                coq = f"(OSetOffset {cq(cur - b if via == 'isub' else cur + b)})"
+                if via == "iadd":
+                    hobj.__iadd__(fl(b))
+                elif via == "isub":
+                    hobj.__isub__(fl(b))
+                elif not is_qm(m):
+                    hobj.add_offset(fl(b))
+                else:
+                    hobj.offset += fl(b)
+            else:
+                coq = f"(OSetOffset {cq(F(op[1]))})"
+                hobj.offset = fl(op[1])
         elif name == "resize":
             old = list(m.variables)
             try:
@@ -754,7 +945,12 @@ def run_op(t, hname, op, T, avoid, form=()):
                 t.stale = None
         elif name == "fix":
             coq = f"(OFix {N(op[1])} {cq(F(op[2]))})"
-            hobj.fix_variable(L(op[1]), fl(op[2]))
+            if via == "plural_dict":
+                hobj.fix_variables({L(op[1]): fl(op[2])})
+            elif via == "plural_pairs":
+                hobj.fix_variables(as_form([(L(op[1]), fl(op[2]))], "iter"))
+            else:
+                hobj.fix_variable(L(op[1]), fl(op[2]))
         elif name == "q_add_variable":
             coq = f"(OQAddVariable {op[1]} {N(op[2])} {oq(op[3])} {oq(op[4])})"
             m.add_variable(op[1], L(op[2]), lower_bound=op[3], upper_bound=op[4])
@@ -772,6 +968,19 @@ def run_op(t, hname, op, T, avoid, form=()):
         elif name == "q_add_variables_from":
             coq = f"(OQAddVariablesFrom {op[1]} {clist([N(v) for v in op[2]])})"
             m.add_variables_from(op[1], as_form([L(v) for v in op[2]], f0))
+        elif name == "q_add_vars_from_model":
+            o = op[1]
+            other = build(o, o.get("dtype", "f64"))
+            if op[2] is None:
+                coq = f"(OQAddVariablesFrom {o['vartype']} {clist([N(vv[0]) for vv in o['vars']])})"
+                m.add_variables_from_model(other)
+            else:
+                rec = [vv for vv in o["vars"] if lkey(dec_label(vv[0])) == lkey(dec_label(op[2]))][0]
+                if rec[1] in ("SPIN", "BINARY"):
+                    coq = f"(OQAddVariable {rec[1]} {N(op[2])} None None)"
+                else:
+                    coq = f"(OQAddVariable {rec[1]} {N(op[2])} {oq(rec[2])} {oq(rec[3])})"
+                m.add_variables_from_model(other, variables=as_form([L(op[2])], f0))
         elif name == "q_change_vartype":
             coq = f"(OQChangeVartype {op[1]} {N(op[2])})"
             m.change_vartype(op[1], L(op[2]))
@@ -787,6 +996,10 @@ def run_op(t, hname, op, T, avoid, form=()):
         raise
     except Exception as e:   # noqa
         exc = e
+        if view_keyerror and isinstance(e, KeyError):
+            exc = ValueError(*e.args)          # documented translation of the mapping views (del linear[v], del quadratic[u, v])
+        elif view_keyerror and isinstance(e, ValueError):
+            raise AssertionError(f"del through the mapping view raised ValueError instead of KeyError: {e}")
     return coq, hterm, exc
 
 
@@ -823,7 +1036,7 @@ def run_case(c):
         recs = []
         for t in targets:
             try:
-                coq, hterm, exc = run_op(t, h, op, T, avoid, st.get("form") or ())
+                coq, hterm, exc = run_op(t, h, op, T, avoid, st.get("form") or (), st.get("via"))
             except AssertionError as e:
                 return {"py_fail": f"[{t.name}] {name}: {e}", "features": {"kind": kind, "op": name, "target": t.name}}
             d, fail = observe(t.m, not avoid)
@@ -838,7 +1051,7 @@ def run_case(c):
             feats["cut_for_precision"] = True
             break
         done += 1
-        ops_seen.add(name)
+        ops_seen.add(name + (":" + st["via"] if st.get("via") else ""))
         for t, coq, hterm, exc, d, fail in recs:
             if fail and py_fail is None:
                 py_fail = f"[{t.name}] after step {done} ({name} via {h}): {fail}"
